@@ -117,7 +117,7 @@ theorem parseScalarTypeExtension_eq (fl : Flags) (fuel : Nat) :
       let start ← peek
       let name ← extHead fl K.scalar
       let directives ← parseDirectives fl fuel true
-      if directives.isEmpty then fail "Unexpected token"
+      if directives.isEmpty then failAt start "Unexpected token"
       else pure (.scalarTypeExtension name directives (← mkLoc fl start))) := by
   simp only [parseScalarTypeExtension, extHead, bind_assoc']
 
@@ -226,7 +226,7 @@ theorem parseInputObjectTypeExtension_eq (fl : Flags) (fuel : Nat) :
       let name ← extHead fl K.input
       let directives ← parseDirectives fl fuel true
       let fields ← parseInputFieldsDefinition fl fuel
-      if directives.isEmpty ∧ fields.isEmpty then fail "Unexpected token"
+      if directives.isEmpty ∧ fields.isEmpty then failTokAt start "Unexpected token"
       else pure (.inputObjectTypeExtension name directives fields (← mkLoc fl start))) := by
   simp only [parseInputObjectTypeExtension, extHead, bind_assoc']
 
